@@ -59,9 +59,14 @@ XorShift(x, a, b, c) == LET x1 == XorB(x, Shl(x, a))
                             x2 == XorB(x1, Shr(x1, b))
                         IN XorB(x2, Shl(x2, c))
 
-\* y = x ^ (x << k) is unitriangular over GF(2):  x = y ^ (y << k) ^ (y << 2k) ^ ...   (likewise for >>)
-UnShl(y, k) == [i \in DOMAIN y |-> Cardinality({j \in 0..((i - 1) \div k) : y[i - j * k] = 1}) % 2]
-UnShr(y, k) == [i \in DOMAIN y |-> Cardinality({j \in 0..((Len(y) - i) \div k) : y[i + j * k] = 1}) % 2]
+\* y = x ^ (x << k), i.e. y = (1 + S^k) x over GF(2) with S the shift.  (1 + S^k)^(2^m) = 1 + S^(k 2^m) = 1 as soon as
+\* k 2^m >= w, hence (1 + S^k)^(-1) = (1 + S^k)(1 + S^2k)(1 + S^4k)... : repeated "x ^= x << k; k *= 2" (likewise for >>)
+RECURSIVE UnShl(_, _), UnShr(_, _)
+UnShl(y, k) == IF k >= Len(y) THEN y ELSE UnShl(XorB(y, Shl(y, k)), 2 * k)
+UnShr(y, k) == IF k >= Len(y) THEN y ELSE UnShr(XorB(y, Shr(y, k)), 2 * k)
+\* declarative reading of the same inverse: bit i of x is the parity of y[i], y[i-k], y[i-2k], ...
+UnShlDecl(y, k) == [i \in DOMAIN y |-> Cardinality({j \in 0..((i - 1) \div k) : y[i - j * k] = 1}) % 2]
+UnShrDecl(y, k) == [i \in DOMAIN y |-> Cardinality({j \in 0..((Len(y) - i) \div k) : y[i + j * k] = 1}) % 2]
 XorShiftInv(y, a, b, c) == UnShl(UnShr(UnShl(y, c), b), a)
 
 \* ---- xoshiro128 (Blackman / Vigna); state s = <<s0, s1, s2, s3>>, shift A = 9, rotation R = 11 ------------------
